@@ -1050,4 +1050,259 @@ mod n {
             c.sample(|| format!("L1 sched {:x} | {} -> {} h, {} W/m2", l1_sched, desc.join(" | "), p.global.occ_spaces_hours_in_use, p.global.occ_spaces_average_load));
         });
     }
+
+    // ---- C14: the indicator computation is total ---------------------------------------------------------------
+    /// A small closed model with every kind of element: 2 storeys, positioned walls, a set-back window, a shade,
+    /// bridges, constructions, loads with schedules and a thermostat.
+    pub(crate) fn seed_model() -> Model {
+        let mut m = empty_model();
+        m.meta.global_ventilation_l_s = Some(40.0);
+        m.meta.n50_test_ach = None;
+        let mut s0 = space(0xA0, true, SpaceType::CONDITIONED, 1.0, 3.0);
+        s0.loads = Some(uid(0xB0));
+        s0.thermostat = Some(uid(0xB8));
+        let mut s1 = space(0xA1, true, SpaceType::UNCONDITIONED, 1.0, 2.5);
+        s1.z = 3.0;
+        s1.loads = Some(uid(0xB1));
+        m.spaces = vec![s0, s1];
+        m.cons.materials = vec![material(0xE0, 0.5), material_r(0xE1, 0.18)];
+        m.cons.wallcons = vec![wallcons(0xC0, &[(0xE0, 0.25), (0xE1, 0.05)])];
+        m.cons.glasses = vec![glass(0xF0)];
+        m.cons.frames = vec![frame(0xF1)];
+        m.cons.wincons = vec![wincons(0xD0, uid(0xF0), uid(0xF1))];
+        let p = |x: f32, y: f32, z: f32| Some(point![x, y, z]);
+        m.walls = vec![
+            wall(1, BoundaryType::GROUND, uid(0xA0), None, uid(0xC0), 180.0, 0.0, rect(4.0, 5.0), p(0.0, 5.0, 0.0)),
+            wall(2, BoundaryType::INTERIOR, uid(0xA1), Some(uid(0xA0)), uid(0xC0), 180.0, 0.0, rect(4.0, 5.0), p(0.0, 5.0, 3.0)),
+            wall(3, BoundaryType::EXTERIOR, uid(0xA1), None, uid(0xC0), 0.0, 0.0, rect(4.0, 5.0), p(0.0, 0.0, 5.5)),
+            wall(4, BoundaryType::EXTERIOR, uid(0xA0), None, uid(0xC0), 90.0, 0.0, rect(4.0, 3.0), p(0.0, 0.0, 0.0)),
+            wall(5, BoundaryType::EXTERIOR, uid(0xA0), None, uid(0xC0), 90.0, 90.0, rect(5.0, 3.0), p(4.0, 0.0, 0.0)),
+            wall(6, BoundaryType::ADIABATIC, uid(0xA0), None, uid(0xC0), 90.0, 180.0, rect(4.0, 3.0), p(4.0, 5.0, 0.0)),
+            wall(7, BoundaryType::EXTERIOR, uid(0xA0), None, uid(0xC0), 90.0, -90.0, rect(5.0, 3.0), p(0.0, 5.0, 0.0)),
+        ];
+        m.windows = vec![window(0x11, uid(4), uid(0xD0), 1.5, 1.2, Some(point![1.0, 1.0]), 0.2), window(0x12, uid(5), uid(0xD0), 1.0, 1.0, Some(point![2.0, 1.0]), 0.0)];
+        m.shades = vec![Shade { id: uid(0x31), name: "overhang".into(), geometry: WallGeom { tilt: 0.0, azimuth: 0.0, position: p(0.0, -1.0, 2.6), polygon: rect(4.0, 1.0) } }];
+        m.thermal_bridges = vec![bridge(0x21, ThermalBridgeKind::CORNER, 6.0, 0.1), bridge(0x22, ThermalBridgeKind::WINDOW, 5.4, 0.2)];
+        m.schedules.day = vec![
+            ScheduleDay { id: uid(0x50), name: "work".into(), values: (0..24).map(|h| if (8..17).contains(&h) { 1.0 } else { 0.0 }).collect() },
+            ScheduleDay { id: uid(0x51), name: "rest".into(), values: vec![0.0; 24] },
+        ];
+        m.schedules.week = vec![schedw(0x40, &[(0x50, 5), (0x51, 2)])];
+        m.schedules.year = vec![sched(0x30, &[(0x40, 365)]), sched(0x31, &[(0x40, 100), (0x40, 265)])];
+        m.loads = vec![
+            SpaceLoads { id: uid(0xB0), name: "L0".into(), area_per_person: 10.0, people_schedule: Some(uid(0x30)), people_sensible: 6.0, people_latent: 3.0, equipment: 4.0, equipment_schedule: Some(uid(0x30)), lighting: 5.0, lighting_schedule: Some(uid(0x30)) },
+            SpaceLoads { id: uid(0xB1), name: "L1".into(), area_per_person: 12.0, people_schedule: Some(uid(0x31)), people_sensible: 5.0, people_latent: 2.0, equipment: 2.0, equipment_schedule: None, lighting: 4.0, lighting_schedule: Some(uid(0x31)) },
+        ];
+        m.thermostats = vec![Thermostat { id: uid(0xB8), name: "T0".into(), temp_max: Some(uid(0x30)), temp_min: Some(uid(0x30)) }];
+        m.overrides.walls.insert(uid(4), WallPropsOverrides { u_value: Some(0.4) });
+        m
+    }
+
+    #[derive(Clone, Debug)]
+    enum Edit {
+        Delete,
+        EmptyArray,
+        DupFirst,
+        Truncate,
+        IdNil,
+        IdAbsent,
+        Zero,
+        Negate,
+    }
+
+    fn collect_paths(v: &serde_json::Value, path: &mut Vec<String>, out: &mut Vec<(Vec<String>, Edit)>) {
+        use serde_json::Value::*;
+        match v {
+            Object(map) => {
+                for (k, child) in map {
+                    path.push(k.clone());
+                    out.push((path.clone(), Edit::Delete));
+                    collect_paths(child, path, out);
+                    path.pop();
+                }
+            }
+            Array(items) => {
+                if !items.is_empty() {
+                    out.push((path.clone(), Edit::EmptyArray));
+                    out.push((path.clone(), Edit::DupFirst));
+                    if items.len() >= 2 {
+                        out.push((path.clone(), Edit::Truncate));
+                    }
+                }
+                for (i, child) in items.iter().enumerate() {
+                    path.push(i.to_string());
+                    out.push((path.clone(), Edit::Delete));
+                    collect_paths(child, path, out);
+                    path.pop();
+                }
+            }
+            String(st) => {
+                if st.len() == 36 && Uuid::parse_str(st).is_ok() {
+                    out.push((path.clone(), Edit::IdNil));
+                    out.push((path.clone(), Edit::IdAbsent));
+                }
+            }
+            Number(_) => {
+                out.push((path.clone(), Edit::Zero));
+                out.push((path.clone(), Edit::Negate));
+            }
+            _ => {}
+        }
+    }
+
+    fn apply_edit(root: &mut serde_json::Value, path: &[String], e: &Edit) -> bool {
+        use serde_json::Value;
+        if let Edit::Delete = e {
+            let (last, parent_path) = path.split_last().unwrap();
+            let mut cur = root;
+            for k in parent_path {
+                cur = match cur {
+                    Value::Object(m) => match m.get_mut(k) { Some(x) => x, None => return false },
+                    Value::Array(a) => match k.parse::<usize>().ok().and_then(|i| a.get_mut(i)) { Some(x) => x, None => return false },
+                    _ => return false,
+                };
+            }
+            return match cur {
+                Value::Object(m) => m.remove(last).is_some(),
+                Value::Array(a) => match last.parse::<usize>() { Ok(i) if i < a.len() => { a.remove(i); true } _ => false },
+                _ => false,
+            };
+        }
+        let mut cur = root;
+        for k in path {
+            cur = match cur {
+                Value::Object(m) => match m.get_mut(k) { Some(x) => x, None => return false },
+                Value::Array(a) => match k.parse::<usize>().ok().and_then(|i| a.get_mut(i)) { Some(x) => x, None => return false },
+                _ => return false,
+            };
+        }
+        match (e, cur) {
+            (Edit::EmptyArray, Value::Array(a)) => { a.clear(); true }
+            (Edit::DupFirst, Value::Array(a)) if !a.is_empty() => { let f = a[0].clone(); a.push(f); true }
+            (Edit::Truncate, Value::Array(a)) => { let n = a.len() / 2; a.truncate(n); true }
+            (Edit::IdNil, v @ Value::String(_)) => { *v = Value::String(Uuid::nil().to_string()); true }
+            (Edit::IdAbsent, v @ Value::String(_)) => { *v = Value::String(uid(0xDEAD_BEEF).to_string()); true }
+            (Edit::Zero, v @ Value::Number(_)) => { *v = serde_json::json!(0); true }
+            (Edit::Negate, v @ Value::Number(_)) => {
+                let x = v.as_f64().unwrap_or(0.0);
+                *v = if v.is_i64() || v.is_u64() { serde_json::json!(-(x as i64)) } else { serde_json::json!(-x) };
+                true
+            }
+            _ => false,
+        }
+    }
+
+    fn fingerprint(ind: &energy::EnergyIndicators) -> String {
+        format!("{:?}|{:?}|{:?}|{:?}|{:?}|{}", ind.area_ref, ind.K_data.K, ind.n50_data.n50, ind.q_soljul_data.q_soljul, ind.compactness, ind.warnings.len())
+    }
+
+    fn c14_run(c: &mut Ctx, edits: &[(Vec<String>, Edit)], which: &[usize], base: &serde_json::Value, base_fp: &str) {
+        let mut v = base.clone();
+        let mut desc = vec![];
+        for &k in which {
+            let (path, e) = &edits[k];
+            let ok = apply_edit(&mut v, path, e);
+            desc.push(format!("{:?} @ /{}{}", e, path.join("/"), if ok { "" } else { " (n/a)" }));
+        }
+        c.note(desc.join(" ; "));
+        let model: Model = match serde_json::from_value(v) {
+            Ok(m) => m,
+            Err(_) => {
+                // the property quantifies over models that load
+                c.check("C14.edit_loads_or_is_rejected", true, || String::new());
+                return;
+            }
+        };
+        let m2 = model.clone();
+        let r = run_with_timeout(20, move || std::panic::catch_unwind(std::panic::AssertUnwindSafe(|| m2.energy_indicators())).map_err(|e| {
+            if let Some(s) = e.downcast_ref::<&str>() { s.to_string() } else if let Some(s) = e.downcast_ref::<String>() { s.clone() } else { "panic".to_string() }
+        }));
+        match r {
+            None => {
+                c.check("C14.terminates", false, || "energy_indicators() did not return within 20 s".to_string());
+                c.stop();
+                return;
+            }
+            Some(Err(msg)) => c.check("C14.no_crash", false, || format!("energy_indicators() panicked: {}", msg)),
+            Some(Ok(ind)) => {
+                c.check("C14.no_crash", true, || String::new());
+                c.check("C14.result_serialises", ind.as_json().is_ok(), || "result does not serialise".to_string());
+                c.nontrivial(fingerprint(&ind));
+            }
+        }
+        // a failure on one model never affects later computations in the same process
+        let seed = seed_model();
+        let again = std::panic::catch_unwind(std::panic::AssertUnwindSafe(|| seed.energy_indicators()));
+        match again {
+            Ok(ind) => c.check("C14.later_computation_unaffected", fingerprint(&ind) == base_fp, || format!("seed indicators changed: {} vs {}", fingerprint(&ind), base_fp)),
+            Err(_) => c.check("C14.later_computation_unaffected", false, || "computing the (valid) seed model panics after the edited model was computed".to_string()),
+        }
+        c.sample(|| desc.join(" ; "));
+    }
+
+    #[test]
+    fn n_c14_seed_closed() {
+        drive("C14.seed", "the closed seed model (2 spaces, 7 positioned walls, 2 windows, shade, bridges, loads, schedules): every reported number finite, result serialises and loads back; also with n50 test value / existing building / each of 4 climate zones", |c| {
+            use crate::climatedata::ClimateZone;
+            let mut m = seed_model();
+            m.meta.climate = c.of(&[ClimateZone::D3, ClimateZone::A3c, ClimateZone::E1, ClimateZone::Alfa1c]);
+            m.meta.n50_test_ach = c.of(&[None, Some(4.5f32)]);
+            m.meta.is_new_building = c.flag();
+            c.note(format!("{:?} {:?} {}", m.meta.climate, m.meta.n50_test_ach, m.meta.is_new_building));
+            c.check("C14.seed.closed", check(&m).is_empty(), || format!("seed is not closed: {:?}", check(&m).iter().map(|w| w.msg.clone()).collect::<Vec<_>>()));
+            let ind = m.energy_indicators();
+            let json = ind.as_json().unwrap();
+            let back: Result<energy::EnergyIndicators, _> = serde_json::from_str(&json);
+            c.check("C14.closed.loads_back", back.is_ok(), || format!("result JSON does not load back: {:?}", back.as_ref().err().map(|e| e.to_string())));
+            // no NaN / inf anywhere: serde_json writes them as null; only Option fields may legitimately be null
+            let v: serde_json::Value = serde_json::from_str(&json).unwrap();
+            fn nulls(v: &serde_json::Value, path: &mut Vec<String>, out: &mut Vec<String>) {
+                match v {
+                    serde_json::Value::Null => out.push(path.join("/")),
+                    serde_json::Value::Object(m) => for (k, x) in m { path.push(k.clone()); nulls(x, path, out); path.pop(); },
+                    serde_json::Value::Array(a) => for (i, x) in a.iter().enumerate() { path.push(i.to_string()); nulls(x, path, out); path.pop(); },
+                    _ => {}
+                }
+            }
+            let mut out = vec![];
+            nulls(&v, &mut vec![], &mut out);
+            let allowed = ["space_next", "u_value_override", "f_shobst_override", "n_v", "illuminance", "veei", "thermostat", "loads", "n_50_test_ach", "people_schedule", "equipment_schedule", "lighting_schedule", "u_max", "u_min", "u_mean", "id"];
+            let bad: Vec<&String> = out.iter().filter(|p| !allowed.iter().any(|a| p.ends_with(a))).collect();
+            c.check("C14.closed.finite", bad.is_empty(), || format!("non-finite / missing figures at {:?}", bad));
+            c.check("C14.closed.sane", ind.area_ref > 0.0 && ind.K_data.K > 0.0 && ind.n50_data.n50 > 0.0 && ind.q_soljul_data.q_soljul > 0.0 && ind.props.windows.values().all(|w| matches!(w.f_shobst, Some(f) if (0.0..=1.0).contains(&f))), || format!("{}", fingerprint(&ind)));
+            c.nontrivial(fingerprint(&ind));
+            c.sample(|| format!("{:?} -> {}", m.meta.climate, fingerprint(&ind)));
+        });
+    }
+
+    #[test]
+    fn n_c14_single_edits() {
+        let base = serde_json::to_value(&seed_model()).unwrap();
+        let mut edits = vec![];
+        collect_paths(&base, &mut vec![], &mut edits);
+        let base_fp = fingerprint(&seed_model().energy_indicators());
+        drive("C14.edit1", "every single structural edit of the seed model's JSON tree (delete key / array item; empty, duplicate-first, truncate array; redirect id to nil / absent; zero / negate number)", |c| {
+            let k = c.pick(edits.len());
+            c14_run(c, &edits, &[k], &base, &base_fp);
+        });
+    }
+
+    #[test]
+    fn n_c14_double_edits() {
+        let base = serde_json::to_value(&seed_model()).unwrap();
+        let mut edits = vec![];
+        collect_paths(&base, &mut vec![], &mut edits);
+        let base_fp = fingerprint(&seed_model().energy_indicators());
+        // pairs: every edit of the schedule / loads / spaces / windows sub-trees with every 7th edit overall
+        let focus: Vec<usize> = edits.iter().enumerate().filter(|(_, (p, _))| matches!(p.first().map(|s| s.as_str()), Some("schedules") | Some("loads") | Some("spaces") | Some("windows"))).map(|(i, _)| i).collect();
+        drive("C14.edit2", "pairs of structural edits: (every edit under schedules/loads/spaces/windows) x (every 7th edit of the whole tree; every 3rd in the thorough tier)", |c| {
+            let a = focus[c.pick(focus.len())];
+            let step = if c.tier_thorough { 3 } else { 7 };
+            let b = step * c.pick((edits.len() + step - 1) / step);
+            if b >= edits.len() || a == b {
+                return;
+            }
+            c14_run(c, &edits, &[a, b], &base, &base_fp);
+        });
+    }
 }
